@@ -197,6 +197,7 @@ def _huge_values_reach_the_root(sh, sigma):
     carried all the way up.  Otherwise (a huge value cancelled by subtraction, divided by, raised to 0, fed
     to sgn) IEEE arithmetic may legitimately arrive at any finite number via rounding, inf or nan."""
     big = Fraction(10) ** 300
+    tiny = Fraction(1, 10 ** 290)
 
     def walk(s):
         # -> (subtree contains a huge value, closure holds)
@@ -204,7 +205,8 @@ def _huge_values_reach_the_root(sh, sigma):
             return False, True
         if s[0] in ("Constant", "Variable"):
             try:
-                return abs(X.ev(s, sigma).v) > big, True
+                v = abs(X.ev(s, sigma).v)
+                return v > big, not (0 < v < tiny)      # (a value in the underflow region may legitimately become 0 anywhere)
             except Exception:
                 return False, False
         hl, okl = walk(s[2])
@@ -212,8 +214,11 @@ def _huge_values_reach_the_root(sh, sigma):
         if not (okl and okr):
             return True, False
         try:
-            mine = abs(X.ev(s, sigma).v) > big
+            mv = abs(X.ev(s, sigma).v)
+            mine = mv > big
         except Exception:
+            return True, False
+        if 0 < mv < tiny:
             return True, False
         if (hl or hr) and not mine:
             return True, False
